@@ -394,6 +394,12 @@ func c05Exec(c Case) *c05Obs {
 		src := c.hexs("src")
 		for _, large := range []bool{false, true} {
 			name := map[bool]string{false: "TokenizeHtmlPreserving", true: "TokenizeOptimized"}[large]
+			if !large && len(src) > 200000 {
+				// the tokenizer for templates of at most 4096 bytes takes time quadratic in the number of tags (30 s on 800 KB
+				// of them): the engine never gives it such a source, and a watchdog on it would measure the machine
+				o.Notes = append(o.Notes, "TokenizeHtmlPreserving not called directly on a source of more than 200000 bytes")
+				continue
+			}
 			o.guard(name, func() {
 				toks, err := c05Tokens(src, large)
 				if err == nil && (len(toks) == 0 || toks[len(toks)-1].Type != twig.TOKEN_EOF) {
@@ -839,7 +845,10 @@ func c05Small(c Case) Case {
 func runC05(casesPath string, res *Result) {
 	var cases []Case
 	readCases(casesPath, func(c Case) {
-		if r := c.str("recipe"); r != "" && c.str("src") == "" && c.str("tpl") == "" {
+		// (a replay file keeps the recipe and a remark in place of the megabytes)
+		if r := c.str("recipe"); r != "" && (c.str("src") == "" || strings.HasPrefix(c.str("src"), "(omitted")) && (c.str("tpl") == "" || strings.HasPrefix(c.str("tpl"), "(omitted")) {
+			delete(c, "src")
+			delete(c, "tpl")
 			c05Expand(c)
 		}
 		cases = append(cases, c)
